@@ -346,8 +346,24 @@ def o_census(root, pre, op, res, extra):
 ORACLES = {'nonedit': o_nonedit, 'census': o_census, 'inv': o_inv, 'refused': o_refused, 'frame': o_frame, 'reparse': o_reparse, 'nodouble': o_no_double}
 
 
-def run_history(text, auto_claim, ops, oracles, *, need_struct=False):
+def set_lf(lf):
+    """Small-block regime: the store's load factor (a module constant the repository's own tests also patch) is
+    re-evaluated from the source's definitions with _LOAD_FACTOR := lf (None restores the source's value), so that
+    ordinary documents span many blocks and every split / merge / redistribution branch is reached by tree-level edits."""
+    import storehist
+    storehist.patch_lf(storehist.lf_constants(lf))
+
+
+def run_history(text, auto_claim, ops, oracles, *, need_struct=False, lf=None):
     """Replays a recorded history; returns (failures, outcomes)."""
+    set_lf(lf)
+    try:
+        return _run_history(text, auto_claim, ops, oracles, need_struct=need_struct)
+    finally:
+        set_lf(None)
+
+
+def _run_history(text, auto_claim, ops, oracles, *, need_struct=False):
     root = edits.P().parse(text, models.File, auto_claim_comments=auto_claim)
     fails = []
     outcomes = []
@@ -377,11 +393,11 @@ def run_history(text, auto_claim, ops, oracles, *, need_struct=False):
     return fails, outcomes
 
 
-def shrink(text, auto_claim, ops, oracles, sig, need_struct=False, budget=60):
+def shrink(text, auto_claim, ops, oracles, sig, need_struct=False, budget=60, lf=None):
     """Delta-debug the op list keeping the same failure signature."""
     def fails(cand):
         try:
-            f, _ = run_history(text, auto_claim, cand, oracles, need_struct=need_struct)
+            f, _ = run_history(text, auto_claim, cand, oracles, need_struct=need_struct, lf=lf)
         except Exception:
             return False
         return any(s == sig for s, _ in f)
@@ -409,7 +425,8 @@ def shrink(text, auto_claim, ops, oracles, sig, need_struct=False, budget=60):
 
 
 def run_sessions(ctx, nsessions, nops, oracles, *, syntax_preserving=False, malformed=0.0, kinds=None,
-                 prefix='', sizes=(1, 2, 3, 5, 8), need_struct=False, use_corpus=True, auto_claim_only=False, observers=()):
+                 prefix='', sizes=(1, 2, 3, 5, 8), need_struct=False, use_corpus=True, auto_claim_only=False, observers=(),
+                 lf_choices=(3, 4, 6, 10, 16), lf_prob=0.3):
     r = ctx.rng
     corpus = list(docs.corpus('File')) if use_corpus else []
     for s in range(nsessions):
@@ -418,12 +435,24 @@ def run_sessions(ctx, nsessions, nops, oracles, *, syntax_preserving=False, malf
         else:
             text = docs.gen_file(r, r.choice(sizes))
         auto_claim = auto_claim_only or r.random() < 0.7
+        lf = r.choice(list(lf_choices)) if r.random() < lf_prob else None
+        set_lf(lf)
         try:
             root = edits.P().parse(text, models.File, auto_claim_comments=auto_claim)
         except Exception:
             ctx.count('doc:rejected')
+            set_lf(None)
             continue
         ctx.count('doc:accepted')
+        ctx.count('regime:small-blocks' if lf else 'regime:one-block')
+        try:
+            _session(ctx, r, root, text, auto_claim, lf, nops, oracles, syntax_preserving, malformed, kinds, prefix, need_struct, observers)
+        finally:
+            set_lf(None)
+
+
+def _session(ctx, r, root, text, auto_claim, lf, nops, oracles, syntax_preserving, malformed, kinds, prefix, need_struct, observers):
+    if True:
         ops = []
         focus = None
         if r.random() < 0.6:
@@ -446,7 +475,7 @@ def run_sessions(ctx, nsessions, nops, oracles, *, syntax_preserving=False, malf
                 ctx.count('op:donor-error:' + op['kind'])
                 continue
             for ob in observers:
-                ob.before(root, op, prepared, {'text': text, 'auto_claim': auto_claim, 'ops': ops + [op]})
+                ob.before(root, op, prepared, {'text': text, 'auto_claim': auto_claim, 'ops': ops + [op], 'lf': lf})
             extra = arg_info(root, op, prepared)
             res = edits.apply_prepared(root, op, prepared)
             for ob in observers:
@@ -466,13 +495,27 @@ def run_sessions(ctx, nsessions, nops, oracles, *, syntax_preserving=False, malf
                 failed.extend(bad)
             if failed:
                 sig, what = failed[0]
-                small = shrink(text, auto_claim, ops, oracles, sig, need_struct=need_struct)
+                small = shrink(text, auto_claim, ops, oracles, sig, need_struct=need_struct, lf=lf)
+                set_lf(lf)
                 ctx.oracle_fail(prefix + sig, what, {'text': text, 'auto_claim': auto_claim, 'ops': [_slim(o) for o in small],
-                                                     'oracles': list(oracles), 'need_struct': need_struct})
+                                                     'oracles': list(oracles), 'need_struct': need_struct, 'lf': lf})
                 break
             if res[0] == 'exc' and res[1] in ('AttributeError', 'TypeError', 'AssertionError', 'NotImplementedError', 'ValueError:not-in-store'):
                 # an internal error rather than a documented refusal: the document may be unusable afterwards
                 break
+
+
+CHURN_KINDS = ('rep-append', 'rep-extend', 'rep-insert', 'rep-copy-insert', 'rep-pop', 'rep-delitem', 'rep-delslice', 'rep-clear',
+               'rep-setslice', 'rep-setitem', 'view-append', 'view-extend', 'view-insert', 'view-pop', 'view-delitem', 'view-delslice',
+               'view-clear', 'meta-setkey', 'meta-popkey', 'meta-clear')
+
+
+def run_churn(ctx, nsessions, nops, oracles, *, kinds=CHURN_KINDS, **kw):
+    """Block churn: long histories of child insertions and removals on larger documents whose store is cut into small
+    blocks (load factor 4..16), so that the store's split, merge and redistribution paths run underneath ordinary
+    tree-level edits; the same oracles judge every step."""
+    run_sessions(ctx, nsessions, nops, oracles, kinds=kinds, sizes=(6, 10, 15), use_corpus=False,
+                 lf_choices=(4, 5, 6, 8, 10, 16), lf_prob=1.0, **kw)
 
 
 def finish_observers(ctx, observers):
@@ -487,5 +530,5 @@ def _slim(op):
 def replay(data, oracles=None):
     rep = data.get('replay') or data
     f, _ = run_history(rep['text'], rep['auto_claim'], rep['ops'], oracles or rep.get('oracles', ['inv']),
-                       need_struct=rep.get('need_struct', False))
+                       need_struct=rep.get('need_struct', False), lf=rep.get('lf'))
     return f
